@@ -69,6 +69,8 @@ class NumSetE(SetE):
 class DictE:
     kind = "dict"
 
+    owner = None  # Ref of the object whose live __dict__ this is (St.get re-binds items to that object's attrs)
+
     def __init__(self, items=None):
         self.items = dict(items or {})
 
@@ -76,6 +78,7 @@ class DictE:
         d = DictE(self.items)
         if "default_factory" in self.__dict__:  # collections.defaultdict keeps its factory across path forks
             d.default_factory = self.default_factory
+        d.owner = self.owner
         return d
 
 
